@@ -350,13 +350,15 @@ def compile_logical_or_and_and_operator(compiler, expr, operator, args):
             # Add this value to the current `BoolOp`, or create a new
             # one if we don't have one.
             value = value.force_expr
-            def enbool(expr):
+            def enbool(left):
                 nonlocal can_append
                 if can_append:
-                    expr.values.append(value)
-                    return expr
+                    left.values.append(value)
+                    return left
                 can_append = True
-                return asty.BoolOp(expr, op=opnode(), values=[expr, value])
+                # Position the `BoolOp` by the whole form: `left` can be
+                # the positionless `None` of an empty `Result`.
+                return asty.BoolOp(expr, op=opnode(), values=[left, value])
             if assignment:
                 assignment.value = enbool(assignment.value)
             else:
